@@ -238,7 +238,7 @@ func selftest(repo, seedsDir, known string, only []string) int {
 	}
 	fmt.Printf("selftest: %d controls, %d silent\n", len(res), bad)
 	if len(only) == 0 {
-		neg := runNegControls(repo, filepath.Join(filepath.Dir(seedsDir), "benign"), known, "all")
+		neg := runNegControls(repo, filepath.Join(filepath.Dir(seedsDir), "benign"), known, "all", nil)
 		noisy := 0
 		for _, r := range neg {
 			st := "silent"
